@@ -208,4 +208,122 @@ def cases(tier):
 
 ASSUMPTIONS = ["M3 (paper): if for an arbitrary but fixed byte address every read returns the last enabled write to it, the device is a flat byte memory",
                "M5 (paper): a stateless translator that maps every master cycle to exactly the specified slave cycles and returns their data is, in front of a flat byte memory, a flat byte memory under the mapped address function",
-               "not covered yet (tier 2): wishbone.Cache, SRAM burst cycles (cti/bte), DownConverter burst tag translation, err forwarding in DownConverter"]
+               "wishbone.Cache: the backing memory is an abstract environment of which only the tracked byte is modelled (ghost bk); geometries from a grid (line = 1/2, 1, 2, 4 master words)", "not covered yet (tier 2): SRAM burst cycles (cti/bte), DownConverter burst tag translation, err forwarding in DownConverter"]
+
+# ---------------------------------------------------------------------------------------------------------------------------
+# wishbone.Cache (write-back): symbolic-address method with an ABSTRACT backing memory as environment (only its content at the
+# tracked byte is modelled: ghost bk).  Invariant: the tracked byte's specified value gv is in the cache line when the line holds
+# its tag (and has been filled), and in the backing memory whenever the line is not (hit and dirty).
+def c_cache(dw_from, dw_to, cachesize, aw=6):
+    from migen.fhdl.bitcontainer import log2_int
+    ratio_up = max(dw_to // dw_from, 1); ratio_dn = max(dw_from // dw_to, 1)
+    offsetbits = log2_int(ratio_up); wordbits = log2_int(ratio_dn)
+    s_aw = aw - offsetbits + wordbits
+    m = wishbone.Interface(data_width=dw_from, adr_width=aw); s = wishbone.Interface(data_width=dw_to, adr_width=s_aw)
+    d = mk(wishbone.Cache, cachesize, m, s)
+    h = HwCheck(f"wishbone.Cache({dw_from}->{dw_to},size={cachesize})", d, m_inputs(m) + s_inputs(s))
+    pend = master_holds(h, m); slave_legal(h, s)
+    h.assume(z3.Not(b(h.v(s.err))), "backing slave does not raise err (the cache does not forward err)")
+    h.assume(z3.And(h.v(m.cti) == K(0, 3), h.v(m.bte) == K(0, 2)), "classic cycles on the master side")
+    held = h.held[""]
+    linebits = log2_int(cachesize) - offsetbits; tagbits = (s_aw - wordbits + offsetbits) - linebits     # addressbits = len(slave.adr)+offsetbits (for wordbits: slave.adr includes word)
+    addressbits = aw
+    tagbits = addressbits - offsetbits - linebits
+    NLm = dw_from // 8; NLs = dw_to // 8
+    GLW = max(1, (NLm - 1).bit_length())
+    gw = h.const("gw", aw); gl = h.const("gl", GLW)
+    if (1 << GLW) > NLm: h.assume(ult(gl, NLm))
+    def parts(adr):
+        off = z3.Extract(offsetbits - 1, 0, adr) if offsetbits else None
+        line = z3.Extract(offsetbits + linebits - 1, offsetbits, adr)
+        tag = z3.Extract(aw - 1, offsetbits + linebits, adr)
+        return off, line, tag
+    off_g, line_g, tag_g = parts(gw)
+    # position of the tracked byte inside the cache line (line width LW bits) and inside the slave's words
+    LWb = dw_to * ratio_dn                       # line width in bits
+    NLl = LWb // 8
+    PW = max(1, (NLl - 1).bit_length())
+    if offsetbits:        # slave wider: line = one slave word = ratio_up master words, chooser/displacer with reverse=True
+        pos = (zx(K(ratio_up - 1, offsetbits) - off_g, PW) * NLm) + zx(gl, PW) if PW >= offsetbits else None
+    else:
+        pos = zx(gl, PW)
+    # slave word index inside the line (wordbits) and lane inside the slave word
+    if wordbits:
+        tw = z3.Extract(PW - 1, PW - wordbits, pos); slane = z3.Extract(PW - wordbits - 1, 0, pos)
+    else:
+        tw = None; slane = pos
+    SLW = max(1, (NLs - 1).bit_length())
+    slane = z3.Extract(SLW - 1, 0, zx(slane, max(SLW, slane.size()))) if slane.size() != SLW else slane
+    data_mem = L(d, "data_mem"); tag_mem = L(d, "tag_mem"); word = L(d, "word")
+    dcells = h.ts.mems[data_mem]; tcells = h.ts.mems[tag_mem]
+    NLINES = len(dcells)
+    def sel_cell(cells, line):
+        r = h.v(cells[NLINES - 1])
+        for j in reversed(range(NLINES - 1)): r = z3.If(line == K(j, linebits), h.v(cells[j]), r)
+        return r
+    def lane_bits(wordbv, p, nl):
+        r = z3.Extract(8 * nl - 1, 8 * (nl - 1), wordbv)
+        for j in reversed(range(nl - 1)): r = z3.If(p == K(j, p.size()), z3.Extract(8 * j + 7, 8 * j, wordbv), r)
+        return r
+    line_data = sel_cell(dcells, line_g); line_tag = sel_cell(tcells, line_g)
+    TB = tcells[0].nbits - 1                      # tag field width as built (the constructor derives it from the slave's address width)
+    tagz = lambda t: zx(t, TB) if t.size() <= TB else z3.Extract(TB - 1, 0, t)
+    t_tag = z3.Extract(TB - 1, 0, line_tag); t_dirty = b(z3.Extract(TB, TB, line_tag))
+    hit = t_tag == tagz(tag_g)
+    data_lane = lane_bits(line_data, pos, NLl)
+    # ghosts
+    gv = h.ghost("gv", 8); bk = h.ghost("bk", 8)
+    mack = b(h.v(m.ack)); rq = req(h, m); mwe = b(h.v(m.we))
+    wr_now = z3.And(mack, mwe, h.v(m.adr) == gw, selbit(h.v(m.sel), gl, NLm))
+    h.ghost_next(gv, z3.If(wr_now, lane_of(h.v(m.dat_w), gl, NLm), gv))
+    # backing memory at the tracked byte: slave word address (tag, line[, word])
+    if wordbits: sadr_g = z3.Concat(tagz(tag_g), line_g, tw)
+    else: sadr_g = z3.Concat(tagz(tag_g), line_g)
+    sadr_g = z3.Extract(s_aw - 1, 0, sadr_g) if sadr_g.size() > s_aw else zx(sadr_g, s_aw)
+    sreq = req(h, s); sack = b(h.v(s.ack)); swe = b(h.v(s.we))
+    at_bk = h.v(s.adr) == sadr_g
+    h.ghost_next(bk, z3.If(z3.And(sreq, sack, swe, at_bk, selbit(h.v(s.sel), slane, NLs)), lane_bits(h.v(s.dat_w), slane, NLs), bk))
+    h.assume(z3.Implies(z3.And(sreq, sack, z3.Not(swe), at_bk), lane_bits(h.v(s.dat_r), slane, NLs) == bk), "abstract backing memory: a read of the tracked byte returns its last written value (ghost bk); other addresses unconstrained")
+    h.assume(bk == bk)
+    # initial backing content arbitrary but equal to the spec value: gv starts as bk's initial value (both 0: tag memory starts with tag 0 clean lines of zeros)
+    st, enc = d.fsm.state, d.fsm.encoding
+    S = lambda n: eqc(h.v(st), enc[n])
+    Lh = parts(held.adr)[1]; Th = parts(held.adr)[2]
+    wv = h.v(word) if word is not None else None
+    filled = z3.Not(z3.And(S("REFILL"), Lh == line_g, (z3.ULE(wv, tw) if wordbits else z3.BoolVal(True))))
+    h.hint("I1.hit->data", z3.Implies(z3.And(hit, filled), data_lane == gv))
+    h.hint("I2.clean->backing", z3.Implies(z3.Not(z3.And(hit, t_dirty)), bk == gv))
+    if wordbits:
+        h.hint("I3.evict-progress", z3.Implies(z3.And(S("EVICT"), Lh == line_g, hit, z3.UGT(wv, tw)), bk == gv))
+    if TB > tagbits:       # the tag field is wider than the real tag (derived from the slave's address width): upper bits stay zero
+        for j in range(NLINES): h.hint(f"tagmsb{j}", z3.Extract(TB - 1, tagbits, h.v(tcells[j])) == K(0, TB - tagbits))
+    h.hint("busy->pend", z3.Implies(z3.Not(S("IDLE")), b(pend)))
+    h.hint("st<n", ult(h.v(st), len(enc)))
+    # evict only of a dirty line whose tag differs from the request; refill only into a line that already carries the requested tag, clean
+    held_line_tag = sel_cell(tcells, Lh)
+    h.hint("evict-state", z3.Implies(S("EVICT"), z3.And(b(z3.Extract(TB, TB, held_line_tag)), z3.Extract(TB - 1, 0, held_line_tag) != tagz(Th))))
+    h.hint("refill-state", z3.Implies(S("REFILL"), z3.And(z3.Not(b(z3.Extract(TB, TB, held_line_tag))), z3.Extract(TB - 1, 0, held_line_tag) == tagz(Th))))
+    # hidden read-address registers of the two memories follow the held request
+    for sreg in h.ts.state:
+        if sreg not in h.ts.orig_signals and sreg.nbits == linebits and sreg not in dcells and sreg not in tcells:
+            h.hint(f"adrreg:{sreg.duid}", z3.Implies(b(pend), h.v(sreg) == Lh))
+    aor = L(d, "adr_offset_r")
+    if aor is not None and aor in h.ts.var: h.hint("offset_r", z3.Implies(b(pend), h.v(aor) == parts(held.adr)[0]))
+    if wordbits: h.hint("word0", z3.Implies(z3.Or(S("IDLE"), S("TEST_HIT")), z3.BoolVal(True)))
+    h.use_auto = False
+    h.ensure("ens.read", z3.Implies(z3.And(mack, z3.Not(mwe), h.v(m.adr) == gw), lane_of(h.v(m.dat_r), gl, NLm) == gv))       # every read returns the last enabled write
+    h.ensure("ens.ack-only-if-req", z3.Implies(mack, rq))
+    h.ensure_seq("ens.ack1", lambda at: z3.Implies(at(mack, 0), z3.Not(at(mack, 1))))
+    h.ensure("ens.slave-legal", z3.And(h.v(s.cyc) == h.v(s.stb), z3.Implies(sreq, h.v(s.sel) == K(2**NLs - 1, NLs))))
+    h.respond("resp.ack", z3.And(rq, z3.Or(z3.Not(sreq), sack)), mack, 3 + 2 * ratio_dn + 1)
+    h.cover("cover.hit-read", z3.And(mack, z3.Not(mwe), h.v(m.adr) == gw), depth=5)
+    h.cover("cover.evict", S("EVICT"), depth=10)
+    h.bmc_depth = 12; h.bmc_time = 60; h.cosim_cycles = 12
+    h.functions = ["litex.soc.interconnect.wishbone.Cache.__init__", "litex.gen.genlib.misc.chooser/displacer/split"]
+    return h
+
+_cases_base = cases
+def cases(tier):
+    cs = _cases_base(tier)
+    cs += [Case("Cache(32->32,size=4)", c_cache, 32, 32, 4, timeout=1200), Case("Cache(64->32,size=4)", c_cache, 64, 32, 4, timeout=1200), Case("Cache(32->64,size=4)", c_cache, 32, 64, 4, timeout=1200), Case("Cache(128->32,size=8)", c_cache, 128, 32, 8, timeout=1200), Case("Cache(32->128,size=8)", c_cache, 32, 128, 8, timeout=1200)]
+    return cs
